@@ -14,7 +14,9 @@ SPEC = {
         "target's build starts at most once, only after every dependency finished and IsBuilt, every completed target has "
         "exactly one terminal report matching its state, states only move forward. Partial w.r.t. the code: Go memory "
         "model and channel semantics trusted; parse-time graph discovery and provide/require abstracted to nondeterministic "
-        "activation over resolved edges; tests, remote execution, post-build functions not modelled."),
+        "activation over resolved edges; NOT modelled: remote execution (there a failing EnsureDownloaded after the "
+        "TargetBuilt report yields a second terminal report), --prepare/--shell (errStop: Stopped without FinishBuild), "
+        "test steps (Built -> Stopped), post-build functions; buildTarget is one step (pinned by the sk_buildTarget fact)."),
     "technique": "Lean 4 inductive invariant (22 clauses) over an action-labelled transition system; skeleton/CAS/enum facts; trace validation of real plz runs",
     "trusted": [
         "go/ast extractor harness/extract/c04 (enum order, IsBuilt, atomic load/store/CAS, CAS pairs, scheduling skeletons with role-renamed identifiers)",
